@@ -323,6 +323,20 @@ func propC18(a *Analysis, r *Registry) {
 					}
 				}
 			}
+			if !guarded {
+				// or the visit itself starts by returning for a node already visited: everything it
+				// does (marking, appending, recursing) is under !visited.Test(n) for its own node
+				for _, tc := range fc.CallsTo("graph/graphalg.(NodeMarks).Test") {
+					if !fc.Val(tc.Call.Args[1]).Equal(X.ParamRF(fn, 0)) {
+						continue
+					}
+					for _, f := range fc.Ctx.Facts(mark.Block()) {
+						if !f.Val && f.Cond == ssa.Value(tc) && fc.Ctx.Dominates(mark.Block(), rec.Block()) {
+							guarded = true
+						}
+					}
+				}
+			}
 			if guarded {
 				r.OK("C-order", fname+"/recurse-only-unvisited", a.W.InstrPos(rec), "recursion only under !visited.Test(succ) for that successor")
 			} else {
